@@ -9,8 +9,8 @@ State-machine model of the public API of `decoder.Decoder` (/repo/decoder/decode
   decoder; how an `io.Reader` fragments the stream is C08's subject), the sticky `d.err`, the
   `sync.Once` of the file header, `fileHeader`, `cur`, the running `crc16`, `timestamp`, `lastTimeOffset`,
   the accumulator, the local message definitions, the developer data indexes and field descriptions,
-  `messages`, `fileId`, `crc`, the options (`St`); around it the reader's whole stream, the byte counter
-  `d.n` and the number of bytes the read buffer holds unread (`Api`);
+  `messages`, `fileId`, `crc`, the options (`St`); around it the reader's whole stream and the byte counter
+  `d.n` (`Api`);
 * operations: `Decode`, `DecodeWithContext` (live or cancelled context), `PeekFileHeader`, `PeekFileId`,
   `Discard`, `Next`, `CheckIntegrity` (followed by the documented re-seek of the reader), `Reset`;
 * every Go index / slice / division that can panic is an explicit `.panic` outcome (`idx`, `slice`,
@@ -35,8 +35,7 @@ inductive Err
 /-- result of a step of the decoder: a value, an error class, a Go panic, or "still looping when the fuel ran out" -/
 inductive Res (α : Type) where
   | ok (a : α)
-  /-- an error of class `e`; `unread` is the stream not yet consumed when it was raised -/
-  | err (e : Err) (unread : List Nat)
+  | err (e : Err)
   | panic
   | hang
   deriving Repr
@@ -44,7 +43,7 @@ inductive Res (α : Type) where
 def Res.bind {α β} (r : Res α) (f : α → Res β) : Res β :=
   match r with
   | .ok a => f a
-  | .err e u => .err e u
+  | .err e => .err e
   | .panic => .panic
   | .hang => .hang
 
@@ -108,7 +107,6 @@ structure Opts where
   bc : Bool := false        -- broadcastMesgCopy
   ml : Bool := false        -- a message listener is registered
   dl : Bool := false        -- a message-definition listener is registered
-  rbs : Nat := 0            -- WithReadBufferSize (0: not given)
   fac : Factory := []
   deriving DecidableEq, Repr, Inhabited
 
@@ -248,7 +246,7 @@ def St.fresh (o : Opts) (bytes : List Nat) : St := { o := o, rest := bytes }
 def rawRead (k : Nat) (s : St) : Res (List Nat × St) :=
   if k > reservedbuf then .panic
   else if Fit.Integrity.hasN s.rest k then .ok (s.rest.take k, { s with rest := s.rest.drop k })
-  else .err .eof s.rest
+  else .err .eof
 
 /-- `(*Decoder).readN` -/
 def readN (k : Nat) (s : St) : Res (List Nat × St) := do
@@ -262,29 +260,29 @@ def readN (k : Nat) (s : St) : Res (List Nat × St) := do
 def decodeFileHeader (s : St) : Res St := do
   let (b, s) ← rawRead 1 s
   let size ← idx b 0
-  if size ≠ 12 ∧ size ≠ 14 then .err .notFit s.rest else
+  if size ≠ 12 ∧ size ≠ 14 then .err .notFit else
   let c1 := write s.q.crc16 b
   let (b, s) ← rawRead (size - 1) s
   let dt ← slice b 7 11
-  if dt ≠ dataTypeFIT then .err .notFit s.rest else
+  if dt ≠ dataTypeFIT then .err .notFit else
   let pv ← idx b 0
   let prof ← slice b 1 3
   let ds ← slice b 3 7
   let h : Hdr := ⟨size, pv, le16 prof, le32 ds, 0⟩
-  if h.dataSize = 0 then .err .notFit s.rest else
+  if h.dataSize = 0 then .err .notFit else
   let crcb ← if size = 14 then slice b 11 13 else pure [0, 0]
   let h := { h with crc := le16 crcb }
   let s := { s with q := { s.q with hdr := h } }
   if h.crc = 0 ∨ !s.o.chk then pure { s with q := { s.q with crc16 := 0 } } else
   let body ← slice b 0 (b.length - 2)
-  if write c1 body ≠ h.crc then .err .crc s.rest else
+  if write c1 body ≠ h.crc then .err .crc else
   pure { s with q := { s.q with crc16 := 0 } }
 
 /-- `decodeFileHeaderOnce`: the first call runs `decodeFileHeader` and stores its error; later calls return `d.err` -/
 def headerOnce (s : St) : Res St :=
   if s.q.hdrDone then
     match s.q.err with
-    | some e => .err e s.rest
+    | some e => .err e
     | none => .ok s
   else
     match decodeFileHeader s with
@@ -322,7 +320,7 @@ def decodeDefinition (header : Nat) (s : St) : Res (St × Option Event) := do
   let n ← idx b 4
   let (fb, s) ← readN (n * 3) s
   match parseFieldDefs fb with
-  | none => .err .baseType s.rest
+  | none => .err .baseType
   | some fields =>
   let (devs, s) ← (if header &&& devDataMask = devDataMask then do
       let (nb, s) ← readN 1 s
@@ -351,7 +349,7 @@ def readValue (size arch bt : Nat) (isBool isArray overrideStr : Bool) (s : St) 
   let isArray := if overrideStr ∧ bt = btString then decide (strcount b > 1) else isArray
   match unmarshal b arch bt isBool isArray with
   | .ok v => pure (v, s)
-  | .err => .err .other s.rest
+  | .err => .err .other
   | .panic => .panic
 
 /-- `float32(x)` / `float64(x)` of an unsigned integer: round to nearest, ties to even
@@ -490,7 +488,7 @@ def decodeDevFields (d : MesgDef) : List DevDef → List DDev → St → Res (Li
       let (_, s) ← readN dd.size s
       decodeDevFields d dds acc s
     | some fdsc =>
-      if !validBaseType fdsc.bt then .err .baseType s.rest else do
+      if !validBaseType fdsc.bt then .err .baseType else do
       let bsz := btSize fdsc.bt
       let arr ← (if dd.size > bsz then do let r ← modP dd.size bsz; pure (decide (r = 0)) else pure false : Res Bool)
       if dd.size = 0 then decodeDevFields d dds acc s else do
@@ -506,7 +504,7 @@ def decodeData (header : Nat) (s : St) : Res (St × Option Event) := do
   let compressed := decide (header &&& mesgCompressedHeaderMask = mesgCompressedHeaderMask)
   let localNum := if compressed then (header &&& compressedLocalMesgNumMask) >>> compressedBitShift else header
   match s.look.lookup (localNum &&& localMesgNumMask) with
-  | none => .err .defMissing s.rest
+  | none => .err .defMissing
   | some d =>
     let (s, pre) := if compressed then
         let off := header &&& compressedTimeMask
@@ -540,7 +538,7 @@ def decodeMessage (s : St) : Res (St × Option Event) := do
 abbrev LoopOut := St × List Event × Res Unit
 
 def loopFail {α} (s : St) : Res α → LoopOut
-  | .err e u => (s, [], .err e u)
+  | .err e => (s, [], .err e)
   | .panic => (s, [], .panic)
   | _ => (s, [], .hang)
 
@@ -571,7 +569,7 @@ def decodeCRC (s : St) : Res St := do
   let hi ← idx b 1
   let crc := lo + 256 * hi
   let s := { s with q := { s.q with crc := crc } }
-  if s.o.chk ∧ s.q.crc16 ≠ crc then .err .crc s.rest else
+  if s.o.chk ∧ s.q.crc16 ≠ crc then .err .crc else
   pure { s with q := { s.q with crc16 := 0 } }
 
 /-- `discardMessages` -/
@@ -586,8 +584,8 @@ def discardMessages : Nat → St → Res St
 
 /-! ### `reset()` and `releaseTemporaryObjects()` -/
 
-/-- `(*Decoder).reset` -/
-def resetSeq (s : St) : St := { s with q := {} }
+/-- `(*Decoder).reset`: the per-sequence state and the look-ups -/
+def resetSeq (s : St) : St := { s with q := {}, look := {} }
 
 /-- `releaseTemporaryObjects` -/
 def release (s : St) : St :=
@@ -611,9 +609,10 @@ inductive Out
 /-- fuel for the record loops: every iteration consumes at least one byte of a stream that is read once -/
 def fuelOf (s : St) : Nat := s.rest.length + 1
 
-/-- a failing step as the API reports it: an error becomes the sticky `d.err` and the stream stands where it was raised -/
+/-- a failing step as the API reports it: an error becomes the sticky `d.err` (where the stream stands then is not
+observable: every entry point returns the error until `Reset` installs a new reader) -/
 def fail {α} (s : St) : Res α → St × Out
-  | .err e u => ({ s with rest := u, q := { s.q with err := some e } }, .err e)
+  | .err e => ({ s with q := { s.q with err := some e } }, .err e)
   | .panic => (s, .panic)
   | _ => (s, .hang)
 
@@ -696,32 +695,32 @@ def stepNext (nZero : Bool) (s : St) : StepOut :=
     if nZero then (s, .bool true, []) else
     match headerOnce s with
     | .ok s1 => (s1, .bool true, [])
-    | .err e u => ({ s with rest := u, q := { s.q with hdrDone := true, err := some e } }, .bool false, [])
+    | .err e => ({ s with q := { s.q with hdrDone := true, err := some e } }, .bool false, [])
     | .panic => (s, .panic, [])
     | .hang => (s, .hang, [])
 
 /-- the loop of `CheckIntegrity`; `posZero` = `d.n == 0` at the start of the iteration. Gives the count of completed
-sequences, the state at the point where the loop stopped and how it stopped. -/
-def ciLoop : Nat → Bool → Nat → St → Nat × St × Res Unit
-  | 0, _, seq, s => (seq, s, .hang)
+sequences and how the loop stopped. -/
+def ciLoop : Nat → Bool → Nat → St → Nat × Res Unit
+  | 0, _, seq, _ => (seq, .hang)
   | fuel + 1, posZero, seq, s =>
     match headerOnce s with
-    | .err e u =>
+    | .err e =>
       -- `pos != 0 && pos == d.n && err == io.EOF`: the very first read of the header met the end of the stream
-      if !posZero ∧ s.rest.isEmpty ∧ !s.q.hdrDone ∧ e = .eof then (seq, s, .ok ()) else (seq, { s with rest := u }, .err e u)
-    | .panic => (seq, s, .panic)
-    | .hang => (seq, s, .hang)
+      if !posZero ∧ s.rest.isEmpty ∧ !s.q.hdrDone ∧ e = .eof then (seq, .ok ()) else (seq, .err e)
+    | .panic => (seq, .panic)
+    | .hang => (seq, .hang)
     | .ok s1 =>
       match discardMessages (fuelOf s1) s1 with
       | .ok s2 =>
         match decodeCRC s2 with
         | .ok s3 => ciLoop fuel false (seq + 1) { s3 with q := { s3.q with hdrDone := false, cur := 0 } }
-        | .err e u => (seq, { s2 with rest := u }, .err e u)
-        | .panic => (seq, s2, .panic)
-        | .hang => (seq, s2, .hang)
-      | .err e u => (seq, { s1 with rest := u }, .err e u)
-      | .panic => (seq, s1, .panic)
-      | .hang => (seq, s1, .hang)
+        | .err e => (seq, .err e)
+        | .panic => (seq, .panic)
+        | .hang => (seq, .hang)
+      | .err e => (seq, .err e)
+      | .panic => (seq, .panic)
+      | .hang => (seq, .hang)
 
 /-! ### the decoder object with its reader -/
 
@@ -731,31 +730,14 @@ structure Api where
   whole : List Nat
   /-- `d.n` -/
   n : Nat := 0
-  /-- number of leading bytes of `d.rest` that sit unread in the read buffer -/
-  buffered : Nat := 0
   deriving DecidableEq, Repr, Inhabited
 
 /-- `decoder.New(bytes.NewReader(bytes), opts...)` -/
 def Api.fresh (o : Opts) (bytes : List Nat) : Api := { d := St.fresh o bytes, whole := bytes }
 
-/-- `readBuffer.Reset`: the size of the resizable section -/
-def bufSize (o : Opts) : Nat :=
-  if o.rbs = 0 then defaultReadBufferSize else if o.rbs < reservedbuf then reservedbuf else o.rbs
-
-/-- the read buffer after `c` more bytes were consumed from a stream of which `avail` bytes were left:
-whenever a request exceeds what is buffered, one `Read` of the reader fills up to `size` bytes -/
-def refill (size : Nat) : Nat → Nat → Nat → Nat → Nat
-  | 0, buffered, _, _ => buffered
-  | fuel + 1, buffered, avail, c =>
-    if c ≤ buffered then buffered - c
-    else if size = 0 ∨ buffered ≥ avail then 0
-    else refill size fuel (min avail (buffered + size)) avail c
-
-/-- bookkeeping of `d.n` and of the buffer after an operation that moved the stream from `a.d.rest` to `d'.rest` -/
+/-- bookkeeping of `d.n` after an operation that moved the stream from `a.d.rest` to `d'.rest` -/
 def Api.advance (a : Api) (d' : St) : Api :=
-  let c := a.d.rest.length - d'.rest.length
-  { a with d := d', n := a.n + c,
-           buffered := refill (bufSize a.d.o) (c + 1) a.buffered a.d.rest.length c }
+  { a with d := d', n := a.n + (a.d.rest.length - d'.rest.length) }
 
 inductive Op
   | decode
@@ -770,29 +752,24 @@ inductive Op
   | reset (o : Opts) (bytes : List Nat)
   deriving DecidableEq, Repr, Inhabited
 
-/-- `CheckIntegrity` + re-seek of the reader to the start of the stream: the bytes still unread in the buffer
-stay in front of the re-sought stream -/
+/-- `CheckIntegrity` + re-seek of the reader to the start of the stream: whatever the loop met, the per-sequence
+state and the look-ups are reset, the byte counter is zero, the read buffer is empty and the options are as before -/
 def stepCheckIntegrity (a : Api) : Api × Out × List Event :=
   let s := a.d
   match s.q.err with
   | some e => (a, .integrity 0 (some e), [])
   | none =>
-    let chk := s.o.chk
-    let s0 := { s with o := { s.o with chk := true } }
-    let (seq, t, r) := ciLoop (fuelOf s0) (a.n == 0) 0 s0
-    let a' := a.advance t
-    let leftover := t.rest.take a'.buffered
-    let fin : Api := { d := { resetSeq t with o := { t.o with chk := chk }, rest := leftover ++ a.whole },
-                       whole := a.whole, n := 0, buffered := leftover.length }
+    let (seq, r) := ciLoop (fuelOf s) (a.n == 0) 0 { s with o := { s.o with chk := true } }
+    let fin : Api := { d := { resetSeq s with rest := a.whole }, whole := a.whole, n := 0 }
     match r with
     | .ok () => (fin, .integrity seq none, [])
-    | .err e _ => (fin, .integrity seq (some e), [])
+    | .err e => (fin, .integrity seq (some e), [])
     | .panic => (a, .panic, [])
     | .hang => (a, .hang, [])
 
 /-- `Reset(r, opts...)`: `reset()`, byte counter, options, read buffer -/
 def stepReset (o : Opts) (bytes : List Nat) (a : Api) : Api × Out × List Event :=
-  ({ d := { resetSeq a.d with o := o, rest := bytes }, whole := bytes, n := 0, buffered := 0 }, .done, [])
+  ({ d := { resetSeq a.d with o := o, rest := bytes }, whole := bytes, n := 0 }, .done, [])
 
 def step (a : Api) (op : Op) : Api × Out × List Event :=
   let lift (r : StepOut) : Api × Out × List Event := (a.advance r.1, r.2.1, r.2.2)
